@@ -32,6 +32,8 @@ var c15Progs = [][]string{
 	{"f", "(", "a", ",", "\"s t\"", ")", "[", "1", "]", ".", "k", "^", "2"},
 	{"-", "a", "*", "[", "1", ",", "b", "]", ".", "m", "(", "2", ")"},
 	{"x", "->", "x", "*", "a", "+", "'q r'", "-", "1.5"},
+	// number forms: exponents with and without sign next to tight operators
+	{"1e3", "-", "1", "+", "2.5e+2", "*", "a", "-", "3e0", "+", "0.5", "-", "7e-1", "/", "b"},
 }
 
 func c15Jobs(tier string, seed int64) []string {
